@@ -27,7 +27,31 @@ import sys
 
 
 class InjectedFault(Exception):
-    pass
+    injected = True
+
+
+# Exception classes an injected fault can take besides the plain InjectedFault(Exception): the classes real faults have (a dead
+# pipe or full disk under print(), Ctrl-C, allocation failure, a failing dependency).  ValueError / TypeError are left out on
+# purpose: they are the validators' own vocabulary for "no" (the library catches them around format checks by design), so an
+# injected one is indistinguishable from a legitimate rejection.
+FAULT_CLASSES = [None, KeyError, OSError, KeyboardInterrupt, MemoryError, AttributeError, RuntimeError, BrokenPipeError, LookupError]
+_made = {}
+
+
+def fault_class(base):
+    """InjectedFault that is also an instance of `base` (caught by `except base`, by contextlib.suppress(base), ...)."""
+    if base is None:
+        return InjectedFault
+    if base not in _made:
+        # a BaseException-only class (KeyboardInterrupt) must stay outside Exception, as the real thing is
+        bases = (InjectedFault, base) if issubclass(base, Exception) else (base,)
+        _made[base] = type("Injected" + base.__name__, bases, {"injected": True})
+    return _made[base]
+
+
+def rotating(offset):
+    """fault class for the k-th fault of a sweep: every class comes round at every len(FAULT_CLASSES)-th position"""
+    return lambda k: FAULT_CLASSES[(k + offset) % len(FAULT_CLASSES)]
 
 
 class Trace:
@@ -37,6 +61,7 @@ class Trace:
         self.events = 0
         self.log = []
         self.lines = []
+        self.fired = False
 
 
 class _Proxy:
@@ -69,7 +94,8 @@ class _Proxy:
         return iter(self._f)
 
 
-def run(fn, pkg_dir, target, fault_at=None, keep_lines=False, granularity="line"):
+def run(fn, pkg_dir, target, fault_at=None, keep_lines=False, granularity="line", fault_base=None):
+    Fault = fault_class(fault_base)
     pkg_dir = os.path.realpath(pkg_dir) + os.sep
     target_real = os.path.realpath(target)
     tr = Trace()
@@ -95,7 +121,7 @@ def run(fn, pkg_dir, target, fault_at=None, keep_lines=False, granularity="line"
                 tr.lines.append((os.path.basename(frame.f_code.co_filename), frame.f_code.co_name, frame.f_lineno))
             if fault_at is not None and state["n"] == fault_at:
                 state["armed"] = False
-                raise InjectedFault("injected at line event %d (%s:%s:%d)" % (
+                raise Fault("injected at line event %d (%s:%s:%d)" % (
                     fault_at, os.path.basename(frame.f_code.co_filename), frame.f_code.co_name, frame.f_lineno))
         return local
 
@@ -127,7 +153,7 @@ def run(fn, pkg_dir, target, fault_at=None, keep_lines=False, granularity="line"
                     tr.lines.append((os.path.basename(frame.f_code.co_filename), frame.f_code.co_name, name))
                 if fault_at is not None and cstate["n"] == fault_at:
                     state["armed"] = False
-                    raise InjectedFault("injected in place of / at the C call %s() made from %s:%s" % (
+                    raise Fault("injected in place of / at the C call %s() made from %s:%s" % (
                         name, os.path.basename(frame.f_code.co_filename), frame.f_code.co_name))
             if state["open"] and name not in ALLOWED_IN_WINDOW and os.path.realpath(frame.f_code.co_filename).startswith(pkg_dir):
                 tr.log.append((state["n"], "call-in-window", "builtin " + name))
@@ -178,9 +204,10 @@ def run(fn, pkg_dir, target, fault_at=None, keep_lines=False, granularity="line"
         tr.outcome = "SystemExit(%s)" % (e.code,)
         tr.exc = e
     except BaseException as e:      # noqa: BLE001 - the outcome is the observation
-        tr.outcome = type(e).__name__
+        tr.outcome = "InjectedFault" if getattr(e, "injected", False) else type(e).__name__
         tr.exc = e
     finally:
+        tr.fired = not state["armed"]        # the fault was raised (outcome "return" with fired: the code swallowed it)
         sys.settrace(old_trace)
         sys.setprofile(old_prof)
         builtins.open, io.open, os.replace, os.rename = real_open, real_io_open, real_replace, real_rename
